@@ -9,8 +9,10 @@ import Chiritori.Lemmas.ScanWide
     (b) the start delimiter does not occur in the text followed by the delimiter minus its last character;
   a tag body fits in the same way with respect to the end delimiter.  Text may therefore contain the characters of
   the delimiters - the first one included: `<div>` and `<!DOCTYPE html>` in HTML with `<!-- <` / `> -->`, `a / b` and
-  `// comment` with `/* <` / `> */`.  What is excluded is exactly the D4 situation (a failed partial match that overlaps
-  a real occurrence, or is still pending where a real delimiter begins): `wideOK` is false on the D4 witnesses.
+  `// comment` with `/* <` / `> */`.  What is excluded is the D4 situation (a failed partial match that overlaps a real
+  occurrence, or is still pending where a real delimiter begins: `wideOK` is false on the D4 witnesses) - and, beyond it, a
+  partial match still pending at the very end of the document (`x <` as the last text), which is harmless but outside the
+  hypothesis; no converse is claimed.
 
   `wideOK_of_ok`: the earlier region (`Piece.ok`: no first delimiter character at all) is a special case.
 -/
